@@ -382,6 +382,7 @@ pub fn run<M: Model + Clone>(spec: Spec<M>, out: &mut Outcome) {
         ));
     }
     let cap_hit = all_stats.iter().any(|s| !s.completed);
+    let previous = std::mem::take(&mut out.coverage);
     out.coverage = json!({
         "states": total_states,
         "transitions": total_trans,
@@ -400,4 +401,22 @@ pub fn run<M: Model + Clone>(spec: Spec<M>, out: &mut Outcome) {
         "projection": crate::fingerprint::PROJECTION_VERSION,
         "explanation": "every transition is the real krill code applied to a forked copy of the real state; states/transitions are those of the deepest completed iteration per configuration",
     });
+    // a check may call `run` more than once (configurations with their own
+    // depth): add up
+    if previous.get("runs").is_some() {
+        let cur = out.coverage.clone();
+        let c = out.coverage.as_object_mut().unwrap();
+        for k in ["states", "transitions", "traces_validated_against_impl", "violations_confirmed_by_replay"] {
+            c.insert(k.into(), json!(previous[k].as_u64().unwrap_or(0) + cur[k].as_u64().unwrap_or(0)));
+        }
+        for k in ["samples", "depth_completed_per_config", "runs"] {
+            let mut a = previous[k].as_array().cloned().unwrap_or_default();
+            a.extend(cur[k].as_array().cloned().unwrap_or_default());
+            c.insert(k.into(), json!(a));
+        }
+        c.insert("exhaustive".into(), json!(previous["exhaustive"].as_bool().unwrap_or(false) && cur["exhaustive"].as_bool().unwrap_or(false)));
+        c.insert("cap_hit".into(), json!(previous["cap_hit"].as_bool().unwrap_or(false) || cur["cap_hit"].as_bool().unwrap_or(false)));
+        c.insert("depth_target".into(), json!([previous["depth_target"].clone(), cur["depth_target"].clone()]));
+        c.insert("wall_cap_s".into(), json!(previous["wall_cap_s"].as_u64().unwrap_or(0) + cur["wall_cap_s"].as_u64().unwrap_or(0)));
+    }
 }
